@@ -76,10 +76,10 @@ func runProof(k *kernel.K) {
 	quiet()
 	s := &psim{k: k, g: &gen{k: k}, disk: simdisk.NewDisk()}
 	s.absentInRequest = knob(k, 1, 5, "absent-keys-in-request")
-	s.hashedComplete = knob(k, 1, 4, "hashed-values-on-clean-channel")
-	s.emptyComplete = knob(k, 1, 4, "empty-values-on-clean-channel")
-	s.emptyState = knob(k, 1, 10, "requests-to-the-empty-state")
-	s.hashClaims = knob(k, 1, 4, "hash-of-hashed-value-claims")
+	s.hashedComplete = knob(k, 3, 4, "hashed-values-on-clean-channel")
+	s.emptyComplete = knob(k, 3, 4, "empty-values-on-clean-channel")
+	s.emptyState = knob(k, 1, 3, "requests-to-the-empty-state")
+	s.hashClaims = knob(k, 3, 4, "hash-of-hashed-value-claims")
 	s.tries = state.NewTries()
 	ss, err := state.NewStorageState(s.disk.Open(), nil, s.tries)
 	if err != nil {
